@@ -314,6 +314,39 @@ func slice(fr *frame, x, lo, hi, max value) value {
 }
 
 // lookup returns x[idx] where x is a map.
+// raceAppend tells the happens-before monitor what an append touches: the appended-to cells when the
+// backing array has room (the append is in place), and the source elements.
+func raceAppend(fr *frame, pos token.Pos, dst []value, n int, src []value) {
+	sc := fr.i.p.sched
+	if sc == nil || !sc.multi() {
+		return
+	}
+	if len(dst)+n <= cap(dst) {
+		full := dst[:len(dst)+n]
+		for i := len(dst); i < len(full); i++ {
+			sc.access(fr, &full[i], true, pos)
+		}
+	} else {
+		for i := range dst {
+			sc.access(fr, &dst[i], false, pos) // reallocation copies the old elements
+		}
+	}
+	for i := range src {
+		sc.access(fr, &src[i], false, pos)
+	}
+}
+
+// raceMap records a map read or write (a map is one cell for the monitor, as for the real detector).
+func raceMap(fr *frame, pos token.Pos, m value, write bool) {
+	sc := fr.i.p.sched
+	if sc == nil || !sc.multi() {
+		return
+	}
+	if k := mapKey(m); k != nil {
+		sc.access(fr, k, write, pos)
+	}
+}
+
 func unsafeTable(fr *frame) map[*value]value {
 	t, _ := fr.i.p.extra["unsafeData"].(map[*value]value)
 	if t == nil {
@@ -326,6 +359,7 @@ func unsafeTable(fr *frame) map[*value]value {
 func lookup(fr *frame, instr *ssa.Lookup, x, idx value) value {
 	switch x := x.(type) { // map or string
 	case map[value]value, *hashmap:
+		raceMap(fr, instr.Pos(), x, false)
 		var v value
 		var ok bool
 		switch x := x.(type) {
@@ -990,15 +1024,26 @@ func callBuiltin(caller *frame, callpos token.Pos, fn *ssa.Builtin, args []value
 		}
 		if isStr(args[1]) {
 			// append([]byte, ...string) []byte
+			raceAppend(caller, callpos, args[0].([]value), len(strBytes(args[1])), nil)
 			return append(args[0].([]value), strBytes(args[1])...)
 		}
 		// append([]T, ...[]T) []T
+		raceAppend(caller, callpos, args[0].([]value), len(args[1].([]value)), args[1].([]value))
 		return append(args[0].([]value), args[1].([]value)...)
 
 	case "copy": // copy([]T, []T) int or copy([]byte, string) int
 		src := args[1]
 		if isStr(src) {
 			src = strBytes(src)
+		}
+		if sc := caller.i.p.sched; sc != nil && sc.multi() {
+			dst, sv := args[0].([]value), src.([]value)
+			for i := 0; i < len(dst) && i < len(sv); i++ {
+				sc.access(caller, &dst[i], true, callpos)
+				if !isStr(args[1]) {
+					sc.access(caller, &sv[i], false, callpos)
+				}
+			}
 		}
 		return copy(args[0].([]value), src.([]value))
 
@@ -1007,6 +1052,7 @@ func callBuiltin(caller *frame, callpos token.Pos, fn *ssa.Builtin, args []value
 		return nil
 
 	case "delete": // delete(map[K]value, K)
+		raceMap(caller, callpos, args[0], true)
 		switch m := args[0].(type) {
 		case map[value]value:
 			delete(m, args[1])
